@@ -15,6 +15,8 @@ AST (python tuples)
               ("field", obj, name) ("mcall", obj, method, [args]) ("is", a, b)        class instances: ("call", ClassName, [ctor args])
   statement : ("class", name, [(field, type)], [(ctor param, type)], ctor body, [(method, [(param, type)], rettype|None, body)])
               ("setfield", obj, field, expr)  ("opfield", obj, field, op, expr)  ("setindex", list, int | varname, expr)  ("opindex", list, int | varname, op, expr)
+              maps (concrete keys): ("map", ktype, vtype, [(key, value)]) ("mindex", map, key); ("msetindex", map, key, expr) ("mopindex", map, key, op, expr);
+              ("mcall", map, "len" | "contains_key" | "remove" | "replace" | "clear" | "clone", [args])
               list built-ins: ("mcall", list, "len" | "push" | "remove" | "clear" | "reverse" | "clone" | "join", [args])
 
 Semantics (what the language prescribes; sources: README, compiler/src/tests/*.rs):
@@ -28,7 +30,7 @@ Semantics (what the language prescribes; sources: README, compiler/src/tests/*.r
   * `&&` / `||` evaluate their right operand only when the left one does not decide; `(x) or y` evaluates y only when x is nil;
   * a failing assert, zero divisor, overflow, `get nil`, index out of range stops the program there with a failure status."""
 import z3
-from core import (Fail, Unsupported, OutOfBound, NIL, ListRef, Cell, Fn, Obj, list_builtin, LIST_BUILTINS, is_sym, is_int, is_bool, arith, compare, negate, logic_not,
+from core import (Fail, Unsupported, OutOfBound, NIL, ListRef, Cell, Fn, Obj, list_builtin, LIST_BUILTINS, MapRef, map_key, map_builtin, MAP_BUILTINS, is_sym, is_int, is_bool, arith, compare, negate, logic_not,
                   logic, equals)
 
 
@@ -193,6 +195,19 @@ class Interp:
                 raise Unsupported("index assignment into a non-list")
             idx = self.pick_index(lst, idx)
             lst.items[idx] = v if k == "setindex" else arith(o, st[3], lst.items[idx], v)
+        elif k in ("msetindex", "mopindex"):
+            # `m[k] = e` / `m[k] op= e`: the value first, then the map, then the key
+            v = self.expr(st[-1], scopes, outer, me)
+            m = self.expr(st[1], scopes, outer, me)
+            kk = map_key(self.expr(st[2], scopes, outer, me))
+            if not isinstance(m, MapRef):
+                raise Unsupported("key assignment into a non-map")
+            if k == "msetindex":
+                m.items[kk] = v
+            else:
+                if kk not in m.items:
+                    raise Fail("mopindex", "no such key")
+                m.items[kk] = arith(o, st[3], m.items[kk], v)
         elif k == "opfield":
             # `obj.f op= e`: the value first, then the target object (evaluated once)
             v = self.expr(st[4], scopes, outer, me)
@@ -306,6 +321,18 @@ class Interp:
             if v is NIL:
                 return self.expr(e[2], scopes, outer, me)
             return v
+        if k == "map":
+            m = MapRef({})
+            for ke, ve in e[3]:                   # pairs left to right, key before value
+                kk = map_key(self.expr(ke, scopes, outer, me))
+                m.items[kk] = self.expr(ve, scopes, outer, me)
+            return m
+        if k == "mindex":
+            m = self.expr(e[1], scopes, outer, me)
+            kk = map_key(self.expr(e[2], scopes, outer, me))
+            if not isinstance(m, MapRef):
+                raise Unsupported("key lookup in a non-map")
+            return m.items.get(kk, NIL)           # a missing key reads as nil
         if k == "field":
             return self.field_cell(self.expr(e[1], scopes, outer, me), e[2]).v
         if k == "mcall":
@@ -315,6 +342,8 @@ class Interp:
                 raise Fail("lookup", "nil object")
             if isinstance(ob, ListRef) and e[2] in LIST_BUILTINS:
                 return list_builtin(o, e[2], ob, args)
+            if isinstance(ob, MapRef) and e[2] in MAP_BUILTINS:
+                return map_builtin(o, e[2], ob, args)
             if not isinstance(ob, Obj):
                 raise Unsupported("method call on a non-object")
             return self.method(ob, ob.vars["$class"].v, e[2], args)
@@ -399,6 +428,10 @@ def rexpr(e, inputs=None):
         return "(-%s)" % rexpr(e[1], inputs)
     if k == "or":
         return "((%s) or %s)" % (rexpr(e[1], inputs), rexpr(e[2], inputs))
+    if k == "map":
+        return "map[%s, %s] {%s}" % (e[1], e[2], ", ".join("%s: %s" % (rexpr(a, inputs), rexpr(b, inputs)) for a, b in e[3]))
+    if k == "mindex":
+        return "%s[%s]" % (rexpr(e[1], inputs), rexpr(e[2], inputs))
     if k == "field":
         return "%s.%s" % (rrecv(e[1], inputs), e[2])
     if k == "mcall":
@@ -481,6 +514,10 @@ def rstmts(stmts, ind, inputs=None):
             out.append(t + "}")
         elif k == "setfield":
             out.append("%s%s.%s = %s" % (t, rrecv(st[1], inputs), st[2], rexpr(st[3], inputs)))
+        elif k == "msetindex":
+            out.append("%s%s[%s] = %s" % (t, rexpr(st[1], inputs), rexpr(st[2], inputs), rexpr(st[3], inputs)))
+        elif k == "mopindex":
+            out.append("%s%s[%s] %s= %s" % (t, rexpr(st[1], inputs), rexpr(st[2], inputs), st[3], rexpr(st[4], inputs)))
         elif k == "opfield":
             out.append("%s%s.%s %s= %s" % (t, rrecv(st[1], inputs), st[2], st[3], rexpr(st[4], inputs)))
         elif k == "setindex":
